@@ -9,7 +9,8 @@ DIR = os.path.join(os.path.dirname(os.path.dirname(os.path.abspath(__file__))), 
 SERVER_CERTS = ["rsa1", "rsa2", "rsa3", "rsa4", "ed1", "ed2"]
 BAD_CERTS = ["bad1", "bad2"]       # OpenSSL serves them, cryptography cannot parse them
 EC_CERTS = ["ec1"]
-CLIENT_CERTS = ["cli_rsa1", "cli_rsa2", "cli_ed1", "cli_same1", "cli_same2"]   # same1/2: same subject
+CLIENT_CERTS = ["cli_rsa1", "cli_rsa2", "cli_ed1", "cli_same1", "cli_same2",   # same1/2: same subject
+                "cli_bundle"]   # cli_rsa2 (leaf, its key) followed by a copy of cli_rsa1's public certificate
 CLONE_CERTS = ["clone_a", "clone_b"]   # same issuer, subject and serial number, different keys
 CA_CERTS = ["caleaf1", "caleaf2", "caleaf3"]   # issued by the private CA "simca" for every simulated host name
 CA_FILE_NAME = "simca"
